@@ -24,6 +24,7 @@ type rgen struct {
 	strLits map[string]string // smt constant name -> literal
 	maxLen  int
 	unsup   string
+	helpers map[string]bool
 }
 
 func (g *rgen) q(p *types.Package) string {
@@ -40,8 +41,11 @@ func (g *rgen) strVal(v string) string {
 	if v == "" {
 		return `""`
 	}
-	if lit, ok := g.strLits[v]; ok {
+	if lit, ok := g.model["strlit:"+v]; ok {
 		return fmt.Sprintf("%q", lit)
+	}
+	if strings.HasPrefix(v, "\"") && strings.HasSuffix(v, "\"") && len(v) >= 2 { // probe candidates are given literally
+		return v
 	}
 	if c, ok := g.strMap[v]; ok {
 		return fmt.Sprintf("%q", c)
@@ -139,6 +143,49 @@ func (g *rgen) build(t types.Type, label string, depth int) string {
 		return lit
 	}
 	return "nil"
+}
+
+// specImpls: executable meaning of the uninterpreted spec functions that abstract library calls (the
+// library function itself), used only to evaluate postconditions concretely in a replay.
+type specImpl struct {
+	fn      string
+	args    []string
+	res     string
+	imports []string
+}
+
+var specImpls = map[string]specImpl{
+	"splitn_n":    {"spSplitNn", []string{"str", "str", "int"}, "int", []string{"strings"}},
+	"splitn_i":    {"spSplitNi", []string{"str", "str", "int", "int"}, "str", []string{"strings"}},
+	"split_n":     {"spSplitn", []string{"str", "str"}, "int", []string{"strings"}},
+	"split_i":     {"spSpliti", []string{"str", "str", "int"}, "str", []string{"strings"}},
+	"trim":        {"strings.TrimSpace", []string{"str"}, "str", []string{"strings"}},
+	"contains":    {"strings.Contains", []string{"str", "str"}, "bool", []string{"strings"}},
+	"hasprefix":   {"strings.HasPrefix", []string{"str", "str"}, "bool", []string{"strings"}},
+	"atoi_ok":     {"spAtoiOK", []string{"str"}, "bool", []string{"strconv"}},
+	"atoi":        {"spAtoi", []string{"str"}, "int", []string{"strconv"}},
+	"itoa":        {"spItoa", []string{"int"}, "str", nil},
+	"pdur_ok":     {"spPdurOK", []string{"str"}, "bool", []string{"time"}},
+	"pdur":        {"spPdur", []string{"str"}, "int", []string{"time"}},
+	"hostport_ok": {"spHPOK", []string{"str"}, "bool", []string{"net"}},
+	"hp_host":     {"spHPHost", []string{"str"}, "str", []string{"net"}},
+	"hp_port":     {"spHPPort", []string{"str"}, "str", []string{"net"}},
+	"joinhp":      {"net.JoinHostPort", []string{"str", "str"}, "str", []string{"net"}},
+}
+
+var specImplHelpers = map[string]string{
+	"spSplitNn": `func spSplitNn(s, sep string, n *big.Int) *big.Int { return big.NewInt(int64(len(strings.SplitN(s, sep, int(n.Int64()))))) }`,
+	"spSplitNi": `func spSplitNi(s, sep string, n, i *big.Int) string { return at(strings.SplitN(s, sep, int(n.Int64())), i) }`,
+	"spSplitn":  `func spSplitn(s, sep string) *big.Int { return big.NewInt(int64(len(strings.Split(s, sep)))) }`,
+	"spSpliti":  `func spSpliti(s, sep string, i *big.Int) string { return at(strings.Split(s, sep), i) }`,
+	"spAtoiOK":  `func spAtoiOK(s string) bool { _, err := strconv.Atoi(s); return err == nil }`,
+	"spAtoi":    `func spAtoi(s string) *big.Int { n, _ := strconv.Atoi(s); return big.NewInt(int64(n)) }`,
+	"spItoa":    `func spItoa(n *big.Int) string { return n.String() }`,
+	"spPdurOK":  `func spPdurOK(s string) bool { _, err := time.ParseDuration(s); return err == nil }`,
+	"spPdur":    `func spPdur(s string) *big.Int { d, _ := time.ParseDuration(s); return big.NewInt(int64(d)) }`,
+	"spHPOK":    `func spHPOK(s string) bool { _, _, err := net.SplitHostPort(s); return err == nil }`,
+	"spHPHost":  `func spHPHost(s string) string { h, _, _ := net.SplitHostPort(s); return h }`,
+	"spHPPort":  `func spHPPort(s string) string { _, p, _ := net.SplitHostPort(s); return p }`,
 }
 
 // ifaceWitness: concrete values standing for "some non-nil value" of an interface type in a replay.
@@ -375,6 +422,29 @@ func (e *cenv) compile(x Expr) (cval, error) {
 			}
 			return cval{fmt.Sprintf("(net.ParseIP(%s).To4() != nil)", a.code), "bool", nil}, nil
 		}
+		if imp, ok := specImpls[name]; ok && len(v.Args) == len(imp.args) {
+			var as []string
+			for i, a := range v.Args {
+				c, err := e.compile(a)
+				if err != nil {
+					return cval{}, err
+				}
+				if c.kind != imp.args[i] {
+					return cval{}, fmt.Errorf("%s: argument %d is %s", name, i, c.kind)
+				}
+				as = append(as, c.code)
+			}
+			for _, im := range imp.imports {
+				g.imports[im] = true
+			}
+			if g.helpers == nil {
+				g.helpers = map[string]bool{}
+			}
+			if _, ok := specImplHelpers[imp.fn]; ok {
+				g.helpers[imp.fn] = true
+			}
+			return cval{fmt.Sprintf("%s(%s)", imp.fn, strings.Join(as, ", ")), imp.res, nil}, nil
+		}
 		if sf, ok := g.specs.SFuncs[name]; ok && sf.Body != nil {
 			ne := &cenv{vars: map[string]cval{}, g: g, old: e.old}
 			for k, c := range e.vars {
@@ -457,33 +527,30 @@ func minI(a, b *big.Int) *big.Int { if a.Cmp(b) <= 0 { return a }; return b }
 func at[T any](s []T, i *big.Int) T { var z T; if !i.IsInt64() || i.Int64() < 0 || i.Int64() >= int64(len(s)) { return z }; return s[i.Int64()] }
 `
 
-// genericReplay builds the replay test for a function with heap-shaped inputs.
-func genericReplay(ld *Loader, specs *Specs, fn *ssa.Function, fr *FuncResult, o *Obligation, model map[string]string) (string, string) {
-	pkg := pkgOfFn(fn)
-	if pkg == nil || fn.Parent() != nil {
-		return "", "closures need a replay template"
-	}
-	g := &rgen{ld: ld, specs: specs, pkg: pkg, model: model, imports: map[string]bool{"fmt": true, "math/big": true, "testing": true},
-		strMap: map[string]string{}, strLits: fr.StrNames}
+// replayCase renders one candidate input as the body of a func() bool (true = a postcondition failed).
+func (g *rgen) replayCase(fn *ssa.Function, fr *FuncResult, model map[string]string) (body string, checked, skipped int, unsup string) {
+	g.model = model
+	g.unsup = ""
 	sig := fn.Signature
 	env := &cenv{vars: map[string]cval{}, g: g, old: map[string]cval{}}
-	var decls []string
-	var argNames []string
+	var decls, argNames, inputs []string
 	for i, p := range fn.Params {
 		switch p.Type().Underlying().(type) {
 		case *types.Interface, *types.Signature, *types.Chan, *types.Map:
-			return "", "parameter " + p.Name() + " is an interface/func/chan/map: needs a replay template"
+			return "", 0, 0, "parameter " + p.Name() + " is an interface/func/chan/map: needs a replay template"
 		}
 		a, ao := fmt.Sprintf("a%d", i), fmt.Sprintf("o%d", i)
-		decls = append(decls, fmt.Sprintf("\t%s := %s", a, g.build(p.Type(), p.Name(), 0)))
+		lit := g.build(p.Type(), p.Name(), 0)
+		decls = append(decls, fmt.Sprintf("\t%s := %s", a, lit))
 		decls = append(decls, fmt.Sprintf("\t%s := %s // independent copy for old()", ao, g.build(p.Type(), p.Name(), 0)))
 		decls = append(decls, fmt.Sprintf("\t_, _ = %s, %s", a, ao))
+		inputs = append(inputs, p.Name()+" = "+lit)
 		env.vars[p.Name()] = cval{a, "go", p.Type()}
 		env.old[p.Name()] = cval{ao, "go", p.Type()}
 		argNames = append(argNames, a)
 	}
 	if g.unsup != "" {
-		return "", "model not replayable: " + g.unsup
+		return "", 0, 0, "model not replayable: " + g.unsup
 	}
 	call := ""
 	if sig.Recv() != nil {
@@ -511,7 +578,6 @@ func genericReplay(ld *Loader, specs *Specs, fn *ssa.Function, fr *FuncResult, o
 		}
 	}
 	var checks []string
-	skipped := 0
 	if fc != nil {
 		for i, e := range fc.Ensures {
 			c, err := env.compile(e.E)
@@ -519,8 +585,52 @@ func genericReplay(ld *Loader, specs *Specs, fn *ssa.Function, fr *FuncResult, o
 				skipped++
 				continue
 			}
+			checked++
 			checks = append(checks, fmt.Sprintf("\tif !(%s) {\n\t\tfmt.Printf(\"REPLAY-RESULT: violated postcondition %%s\\n\", %q)\n\t\tbad = true\n\t}", c.code, clauseName(e, i)+": "+e.Text))
 		}
+	}
+	var sb strings.Builder
+	fmt.Fprintf(&sb, "\tfmt.Printf(\"REPLAY-INPUT: %%s\\n\", %q)\n", strings.Join(inputs, "; "))
+	sb.WriteString("\tdefer func() {\n\t\tif r := recover(); r != nil {\n\t\t\tfmt.Printf(\"REPLAY-RESULT: panic %v\\n\", r)\n\t\t\tbad = true\n\t\t}\n\t}()\n")
+	sb.WriteString(strings.Join(decls, "\n") + "\n")
+	if len(resNames) > 0 {
+		fmt.Fprintf(&sb, "\t%s := %s\n", strings.Join(resNames, ", "), call)
+		for _, r := range resNames {
+			fmt.Fprintf(&sb, "\t_ = %s\n", r)
+		}
+		fmt.Fprintf(&sb, "\tfmt.Printf(\"REPLAY-CALL: %s = %%v\\n\", []interface{}{%s})\n", strings.ReplaceAll(call, "\"", "'"), strings.Join(resNames, ", "))
+	} else {
+		fmt.Fprintf(&sb, "\t%s\n\tfmt.Println(\"REPLAY-CALL: %s\")\n", call, strings.ReplaceAll(call, "\"", "'"))
+	}
+	sb.WriteString(strings.Join(checks, "\n") + "\n")
+	sb.WriteString("\treturn bad\n")
+	return sb.String(), checked, skipped, ""
+}
+
+// genericReplay builds the replay test for a function with heap-shaped inputs: one case per candidate
+// input (the solver's model, or - when the solver gave none - probes built from the contract's literals).
+func genericReplay(ld *Loader, specs *Specs, fn *ssa.Function, fr *FuncResult, o *Obligation, models []map[string]string, what string) (string, string) {
+	pkg := pkgOfFn(fn)
+	if pkg == nil || fn.Parent() != nil {
+		return "", "closures need a replay template"
+	}
+	g := &rgen{ld: ld, specs: specs, pkg: pkg, imports: map[string]bool{"fmt": true, "math/big": true, "testing": true},
+		strMap: map[string]string{}, strLits: fr.StrNames}
+	var cases []string
+	checked, skipped := 0, 0
+	for _, m := range models {
+		body, c, sk, unsup := g.replayCase(fn, fr, m)
+		if body == "" {
+			if len(models) == 1 {
+				return "", unsup
+			}
+			continue
+		}
+		checked, skipped = c, sk
+		cases = append(cases, body)
+	}
+	if len(cases) == 0 {
+		return "", "no replayable candidate input"
 	}
 	var sb strings.Builder
 	fmt.Fprintf(&sb, "package %s\n\nimport (\n", pkg.Name())
@@ -534,20 +644,124 @@ func genericReplay(ld *Loader, specs *Specs, fn *ssa.Function, fr *FuncResult, o
 	}
 	sb.WriteString(")\n")
 	sb.WriteString(replayHelpers2)
-	fmt.Fprintf(&sb, "\nvar _ = big.NewInt\n\nconst qbound = int64(%d)\n\nfunc TestGovcReplay(t *testing.T) {\n", g.maxLen+2)
-	sb.WriteString("\tdefer func() {\n\t\tif r := recover(); r != nil {\n\t\t\tfmt.Printf(\"REPLAY-RESULT: panic %v\\n\", r)\n\t\t}\n\t}()\n")
-	sb.WriteString(strings.Join(decls, "\n") + "\n")
-	if len(resNames) > 0 {
-		fmt.Fprintf(&sb, "\t%s := %s\n", strings.Join(resNames, ", "), call)
-		for _, r := range resNames {
-			fmt.Fprintf(&sb, "\t_ = %s\n", r)
-		}
-		fmt.Fprintf(&sb, "\tfmt.Printf(\"REPLAY-CALL: %s = %%v\\n\", []interface{}{%s})\n", strings.ReplaceAll(call, "\"", "'"), strings.Join(resNames, ", "))
-	} else {
-		fmt.Fprintf(&sb, "\t%s\n\tfmt.Println(\"REPLAY-CALL: %s\")\n", call, strings.ReplaceAll(call, "\"", "'"))
+	for _, h := range sortedKeys(g.helpers) {
+		sb.WriteString(specImplHelpers[h] + "\n")
 	}
-	sb.WriteString("\tbad := false\n")
-	sb.WriteString(strings.Join(checks, "\n") + "\n")
-	sb.WriteString("\tif !bad {\n\t\tfmt.Println(\"REPLAY-RESULT: held\")\n\t}\n}\n")
-	return sb.String(), fmt.Sprintf("typed replay: %d postconditions evaluated concretely, %d not expressible in Go (ghost state / uninterpreted functions)", len(checks), skipped)
+	fmt.Fprintf(&sb, "\nvar _ = big.NewInt\n\nconst qbound = int64(%d)\n\n", g.maxLen+2)
+	for i, c := range cases {
+		fmt.Fprintf(&sb, "func govcReplayCase%d() (bad bool) {\n%s}\n\n", i, c)
+	}
+	sb.WriteString("func TestGovcReplay(t *testing.T) {\n")
+	for i := range cases {
+		fmt.Fprintf(&sb, "\tif govcReplayCase%d() {\n\t\treturn\n\t}\n", i)
+	}
+	sb.WriteString("\tfmt.Println(\"REPLAY-RESULT: held\")\n}\n")
+	return sb.String(), fmt.Sprintf("typed replay of %s: %d postconditions evaluated concretely, %d not expressible in Go (ghost state / uninterpreted functions)", what, checked, skipped)
+}
+
+// probeModels: candidate inputs for a function over scalars and strings when the solver decided nothing:
+// every string parameter ranges over the string literals of the contract, integers over a few small values.
+func probeModels(fn *ssa.Function, fr *FuncResult) []map[string]string {
+	var lits []string
+	seen := map[string]bool{}
+	var walk func(e Expr)
+	walk = func(e Expr) {
+		switch v := e.(type) {
+		case EStr:
+			if !seen[v.Val] {
+				seen[v.Val] = true
+				lits = append(lits, v.Val)
+			}
+		case EBin:
+			walk(v.L)
+			walk(v.R)
+		case EUn:
+			walk(v.X)
+		case ECall:
+			for _, a := range v.Args {
+				walk(a)
+			}
+		case ECond:
+			walk(v.C)
+			walk(v.A)
+			walk(v.B)
+		case EQuant:
+			walk(v.Body)
+		case EIndex:
+			walk(v.X)
+			walk(v.I)
+		case ESel:
+			walk(v.X)
+		}
+	}
+	if fr.Contract == nil {
+		return nil
+	}
+	for _, c := range fr.Contract.Ensures {
+		walk(c.E)
+	}
+	for _, c := range fr.Contract.Requires {
+		walk(c.E)
+	}
+	if len(lits) == 0 {
+		return nil
+	}
+	var labels, intLabels []string
+	var collect func(t types.Type, label string, depth int)
+	collect = func(t types.Type, label string, depth int) {
+		if depth > 6 {
+			return
+		}
+		switch u := t.Underlying().(type) {
+		case *types.Basic:
+			if u.Info()&types.IsString != 0 {
+				labels = append(labels, label)
+			} else if u.Info()&types.IsInteger != 0 {
+				intLabels = append(intLabels, label)
+			}
+		case *types.Pointer:
+			collect(u.Elem(), label, depth+1)
+		case *types.Struct:
+			if transparentStruct(t) {
+				for i := 0; i < u.NumFields(); i++ {
+					collect(u.Field(i).Type(), label+"."+u.Field(i).Name(), depth+1)
+				}
+			}
+		}
+	}
+	for _, p := range fn.Params {
+		collect(p.Type(), p.Name(), 0)
+	}
+	if len(labels) == 0 || len(labels) > 2 {
+		return nil
+	}
+	var out []map[string]string
+	var rec func(i int, m map[string]string)
+	rec = func(i int, m map[string]string) {
+		if len(out) >= 32 {
+			return
+		}
+		if i == len(labels) {
+			for _, iv := range []string{"0", "7"} { // integer leaves: all zero, all seven
+				c := map[string]string{}
+				for k, v := range m {
+					c[k] = v
+				}
+				for _, l := range intLabels {
+					c[l] = iv
+				}
+				out = append(out, c)
+				if len(intLabels) == 0 {
+					break
+				}
+			}
+			return
+		}
+		for _, l := range lits {
+			m[labels[i]] = fmt.Sprintf("%q", l)
+			rec(i+1, m)
+		}
+	}
+	rec(0, map[string]string{})
+	return out
 }
